@@ -4,10 +4,22 @@ import json, os
 HERE = os.path.dirname(os.path.dirname(os.path.abspath(__file__)))
 
 HOOK_COMMITS = ["2cbbdff", "ac23892"]
-FIX_COMMITS = ["98bc2de", "ed106f3", "491bd24", "dfb98ff", "3df74c4"]
+FIX_COMMITS = ["98bc2de", "ed106f3", "491bd24", "dfb98ff", "3df74c4", "b3f789f", "ab23d59"]
 
 CHECKS = {
  # id: (engine, technique, level text, level note, design ref, has_thorough)
+ "C02": ("rsx", "source-level symbolic execution of all 96 generated deserialize_http bodies and of the http/de.rs helpers; z3 decides the equality of each member's source with the binding the Smithy model prescribes and the absent/single/duplicated cases of the helpers; one witness request per header/query member replayed on the real build",
+         "every input member of every operation is shown to be decoded from exactly the location and wire name the API model gives it, no member from two sources, helper semantics absent->None/missing, one->parsed, duplicated->error, buffered body length = Content-Length; values are abstract (binding claim)",
+         "trusts the rsx executor and catalogue, the http crate's header-constant naming; the s3s-aws proxy path, XML payload content (C13) and value-level parsing beyond the Kani leaves are outside the claim",
+         "DESIGN.md 5/C02", False),
+ "C03": ("rsx", "source-level symbolic execution of all 96 generated serialize_http bodies and of the response half of every Operation::call; z3 decides status/header/payload bindings against the Smithy model; Kani harnesses on KeepAliveBody::poll_frame; witnesses on the real build",
+         "success status (206 iff ranged), every header-bound output member written once under the model's name, payload/body member, backend headers added, backend errors rendered, status override honoured — for every path of every operation",
+         "trusts the rsx executor and catalogue; decoding by an actual SDK client, streamed body bytes and value-level XML/timestamps are outside the claim",
+         "DESIGN.md 5/C03", False),
+ "C20": ("kani", "bounded model checking of the compiled wildcard matcher against a dynamic-programming reference (Kani/CBMC), in-crate harness over the private match_pattern and external harnesses over PatternSet",
+         "all patterns x inputs of concrete sizes up to 7x7 over every 7-bit byte (8x8 over a small alphabet, 3x3 over all bytes), panic/overflow freedom included; pattern sets of zero or one pattern; empty patterns refused",
+         "the JSON half of the property (serde_json/IndexMap) does not fit the engine and is outside the claim, as are sets of two or more patterns and longer strings",
+         "DESIGN.md 5/C20", True),
  "C07": ("rsx", "source-level symbolic execution of ops::call/prepare, SignatureContext::check (all v2/v4 branches) and every generated Operation::call; z3 decides feasibility and entailment of the guard conditions on every path; concrete scenario family replayed on the real build",
          "all feasible paths (no bound on requests/configurations: every Option/Result/flag is symbolic) are checked for: backend or custom-route call only after check() returned Ok and the access hook (or the default rule) approved, in that order; identity handed on is the payload of check(); check() authenticates only behind a successful comparison with a signature computed under the provider's secret for that key; denials are returned unchanged; no provider => signed requests refused",
          "trusts the rsx executor and its primitive catalogue (listed in the evidence; helper extractors are uninterpreted fallible functions), validated by 120 concrete scenarios signed by an independent reference signer; what the signature algorithms compute is C05/C06/C10/C11",
@@ -21,8 +33,8 @@ CHECKS = {
          "trusts the rsx executor for the closed idiom set (validated by per-path witness replay), the primitive catalogue listed in the evidence, and the leaf contract of OrderedQs/HeaderMap lookups; query values are abstract except the two value tests of the router",
          "DESIGN.md 5/C01", False),
  "C14": ("kani", "bounded model checking of the compiled code (Kani/CBMC, SAT) with native counterexample playback",
-         "Range::check is decided for every Range value and every u64 length (no bound); Range::parse for every 7-bit header with a tail of up to 8 bytes after \"bytes=\"; results are bounded symbolic verdicts, not proofs beyond the bounds",
-         "trusts Kani/CBMC's model of Rust and the reference interval/grammar written from RFC 9110 in the harness; timestamps, copy sources and content types are covered by further harnesses as listed in the evidence",
+         "Range::check is decided for every Range value and every u64 length (no bound); Range::parse for every 7-bit header with a tail of up to 8 bytes after \"bytes=\"; copy sources on concrete keys through the compiled parser; timestamps only by a data-flow obligation plus a native witness sweep (the time crate does not fit CBMC)",
+         "trusts Kani/CBMC's model of Rust and the references written from RFC 9110 in the harnesses; timestamp text and mime types are not decided symbolically (stated in the evidence)",
          "DESIGN.md 5/C14", True),
 }
 
